@@ -1,6 +1,6 @@
 (* C07 - Clones are faithful, self-contained and independent of the original. Property theorems only. *)
 From Coq Require Import List ZArith String.
-From SV Require Import Base.Base IR.State IR.NS IR.Ops Xform.Clone Proofs.CloneSmall Proofs.C01_full Proofs.Inv1a Proofs.Inv2a Proofs.CloneFrame Proofs.CloneStart Proofs.NsInv Proofs.InvW Proofs.UniqInv Proofs.CloneFaith Proofs.CloneFull Proofs.CloneNetInv Proofs.CloneDefStruct Proofs.CloneLibInv Proofs.CloneAnyInv Proofs.CloneData Proofs.CloneDataNet Proofs.Locality Proofs.LocalityStep Proofs.LocalityHist Proofs.LocalityClone Proofs.LocalityOrig Proofs.LocalityNet.
+From SV Require Import Base.Base IR.State IR.NS IR.Ops Xform.Clone Proofs.CloneSmall Proofs.C01_full Proofs.Inv1a Proofs.Inv2a Proofs.CloneFrame Proofs.CloneStart Proofs.NsInv Proofs.InvW Proofs.UniqInv Proofs.CloneFaith Proofs.CloneFull Proofs.CloneNetInv Proofs.CloneDefStruct Proofs.CloneLibInv Proofs.CloneAnyInv Proofs.CloneData Proofs.CloneDataNet Proofs.Locality Proofs.LocalityStep Proofs.LocalityHist Proofs.LocalityClone Proofs.LocalityOrig Proofs.LocalityDrefs Proofs.LocalityNet.
 Import ListNotations.
 
 (* cloning a wire: one fresh element, no pins listed, nothing else changes *)
@@ -500,16 +500,23 @@ Proof.
 Qed.
 
 (* INDEPENDENCE, original side: the region of the original after the clone - the objects that existed
-   before the call and everything allocated after it - is closed as well, provided no reference set of an
-   old definition lists an object of the copy (norefb, a decidable condition on the state after the clone:
-   it is what the final filter of Netlist._clone_rip establishes for a closed netlist; not yet derived from
-   NetStruct, so it is a hypothesis here), and then for EVERY history of editing calls on objects of the
+   before the call and everything allocated after it - is closed as well (no reference set of an old
+   definition lists an object of the copy: C07_netlist_clone_keeps_old_reference_sets below, from the final
+   filter of Netlist._clone_rip), and then for EVERY history of editing calls on objects of the
    original (or created by those calls) every field of every object of the copy is unchanged. *)
+(* Netlist.clone of a closed netlist does not even touch the reference sets of the objects that existed
+   before the call: the exception of C07_frame_and_closure does not arise for netlist roots *)
+Theorem C07_netlist_clone_keeps_old_reference_sets : forall ops n,
+  let s := run ops init in
+  kind_of s n = Some KNetlist -> Closed s n -> snd (fst (clone_netlist s n)) = None ->
+  forall y, y < next s -> drefs (fst (fst (clone_netlist s n))) y = drefs s y.
+Proof. exact clone_netlist_reachable_old_drefs. Qed.
+Print Assumptions C07_netlist_clone_keeps_old_reference_sets.
+
 Theorem C07_netlist_clone_orig_region_closed : forall ops n,
   let s := run ops init in
   let sF := fst (fst (clone_netlist s n)) in
   kind_of s n = Some KNetlist -> Closed s n -> snd (fst (clone_netlist s n)) = None ->
-  norefb (next s) (next sF) sF = true ->
   RClosed (orig_region (next s) (next sF)) sF.
 Proof. exact netlist_clone_orig_region_closed. Qed.
 Print Assumptions C07_netlist_clone_orig_region_closed.
@@ -518,7 +525,6 @@ Theorem C07_edits_of_original_never_show_in_copy : forall ops n h,
   let s := run ops init in
   let sF := fst (fst (clone_netlist s n)) in
   kind_of s n = Some KNetlist -> Closed s n -> snd (fst (clone_netlist s n)) = None ->
-  norefb (next s) (next sF) sF = true ->
   Forall (op_in (orig_region (next s) (next sF))) h ->
   out_eq (orig_region (next s) (next sF)) sF (run h sF) /\ RClosed (orig_region (next s) (next sF)) (run h sF).
 Proof. exact netlist_clone_orig_edits_independent. Qed.
